@@ -23,7 +23,19 @@ def run(ctx):
     return [
         refine.refine_batch(ctx, ctx.size(120, 1500), force=FORCE, pid=PID, name="trace-refinement(Tree.step vs DemeTree.run)"),
         runs.monitor_batch(ctx, PID, ctx.size(250, 3000), force=FORCE),
+        _contracted(ctx),
     ]
+
+
+def _contracted(ctx):
+    """engine-level generations on contracted populations (what a deme looks like after ~100 generations):
+    every individual handed back is an individual of the preceding generation or was evaluated while this
+    generation was made"""
+    from . import c02
+
+    sl = c02.slice_contracted(ctx, ctx.rng(33), ctx.size(300, 4000), only="C11/")
+    sl.name = "engine-runs-on-contracted-populations(each individual from the preceding generation or freshly evaluated)"
+    return sl
 
 
 def search(ctx, broken):
